@@ -9,7 +9,7 @@ import (
 	"verif/ref"
 )
 
-var c02Shapes = []string{"modify", "grow", "shrink", "spill", "multispill", "rollback", "rollback-spill", "lockonly", "create-big", "block-edge", "nosync", "spill-beyond", "mixed"}
+var c02Shapes = []string{"modify", "grow", "shrink", "spill", "multispill", "rollback", "rollback-spill", "lockonly", "create-big", "block-edge", "nosync", "spill-beyond", "grow-holes", "mixed"}
 
 func init() {
 	register(&core.Check{
@@ -21,9 +21,9 @@ func init() {
 		Assumptions: []string{"the ltx module's decoder is trusted", "handlers are driven in-process (bazil dispatch bypassed)", "pager programs follow SQLite's documented I/O protocol (Appendix A)"},
 		NumCases: func(tier string) int {
 			if tier == "thorough" {
-				return 6000
+				return 6300
 			}
-			return 390
+			return 420
 		},
 		EvalCounter: "programs",
 		Run:         runC02,
@@ -31,7 +31,7 @@ func init() {
 			return map[string]int{
 				"commit_delete": 20, "commit_truncate": 20, "commit_persist": 20,
 				"multi_segment": 5, "rollback_after_spill": 5, "late_truncate": 3, "block_cross": 3,
-				"create_from_nothing": 3, "spilled_beyond_commit": 5, "ltx_decoded": 100, "lockonly": 3, "tx_events_seen": 50,
+				"create_from_nothing": 3, "spilled_beyond_commit": 5, "grow_with_unwritten_pages": 10, "ltx_decoded": 100, "lockonly": 3, "tx_events_seen": 50,
 			}
 		},
 	})
@@ -191,6 +191,22 @@ func runC02(c *core.Case) {
 			if c.Rng.IntN(4) == 0 {
 				spec.Outcome = "rollback"
 			}
+		case "grow-holes":
+			// the transaction allocates pages and frees some again: SQLite never
+			// writes those, only the last page (to extend the file)
+			randDirty(1 + c.Rng.IntN(5))
+			g := uint32(2 + c.Rng.IntN(12))
+			if c.Rng.IntN(4) == 0 && cur < 250 {
+				g = 258 - cur + uint32(c.Rng.IntN(4)) // across the first checksum block
+			}
+			spec.NewPageN = cur + g
+			spec.UnwrittenNew = 1 + uint32(c.Rng.IntN(int(g-1)))
+			if c.Rng.IntN(3) == 0 {
+				spec.SpillAfter = 2 + c.Rng.IntN(3)
+			}
+			if c.Rng.IntN(6) == 0 {
+				spec.Outcome = "rollback"
+			}
 		case "nosync":
 			randDirty(1 + c.Rng.IntN(5))
 			spec.NRec = "nosync"
@@ -260,6 +276,9 @@ func runC02(c *core.Case) {
 			}
 			if spec.SpillBeyond > 0 {
 				c.Count("spilled_beyond_commit", 1)
+			}
+			if spec.UnwrittenNew > 0 {
+				c.Count("grow_with_unwritten_pages", 1)
 			}
 			if (cur <= 256) != (spec.NewPageN <= 256) || (cur <= 512) != (spec.NewPageN <= 512) {
 				c.Count("block_cross", 1)
